@@ -441,20 +441,36 @@ func checkC04(w *World, r *Report) {
 		full, net := false, false
 		var bad []string
 		var reservedMap ssa.Value
+		// the reservation of the bidder k: R[k] read as the value of a range over R (k its key) or as a lookup R[k];
+		// the payment of k: PayingAmount of the bidder's match result, read the same two ways
+		entryOf := func(t, k *Term) *Term { // the map whose entry for k the term t is
+			t, k = uncell(t), uncell(k)
+			switch {
+			case t.Op == "mapval" && k.Op == "mapkey" && len(t.Args) == 1 && len(k.Args) == 1 && t.Args[0].Key() == k.Args[0].Key():
+				return t.Args[0]
+			case t.Op == "lookup" && len(t.Args) == 2 && uncell(t.Args[1]).Key() == k.Key():
+				return t.Args[0]
+			}
+			return nil
+		}
 		for _, mu := range ups {
 			kt, vt := tm.Of(fr, mu.Key), tm.OperandAt(fr, mu, mu.Value)
 			switch {
-			case vt.Op == "mapval" && kt.Op == "mapkey" && kt.Args[0].Key() == vt.Args[0].Key() && vt.Args[0].Op == "makemap":
+			case entryOf(vt, kt) != nil && uncell(entryOf(vt, kt)).Op == "makemap":
 				full = true
-				reservedMap = vt.Args[0].V
+				reservedMap = uncell(entryOf(vt, kt)).V
 			case vt.Op == "call" && mathName(vt) == "Int.Sub" && len(vt.Args) == 2:
 				res, pay := vt.Args[0], vt.Args[1]
-				okRes := res.Op == "lookup" && res.Args[0].Op == "makemap" && res.Args[1].Key() == kt.Key()
-				okPay := isField(pay, "PayingAmount") && pay.Args[0].Op == "mapval" && kt.Op == "mapkey" && kt.Args[0].Key() == pay.Args[0].Args[0].Key()
+				rm := entryOf(res, kt)
+				okRes := rm != nil && uncell(rm).Op == "makemap"
+				okPay := isField(pay, "PayingAmount") && entryOf(pay.Args[0], kt) != nil
 				if okRes && okPay {
 					net = true
-					if reservedMap != nil && mapRoot(res.Args[0].V) != mapRoot(reservedMap) {
+					if reservedMap != nil && mapRoot(uncell(rm).V) != mapRoot(reservedMap) {
 						bad = append(bad, "the reservation map used for matched bidders differs from the one used for the full refunds")
+					}
+					if reservedMap == nil {
+						reservedMap = uncell(rm).V
 					}
 				} else {
 					bad = append(bad, fmt.Sprintf("refund at %s is %s under key %s: not reservation[bidder] − payment[bidder] of the same bidder", w.instrPos(mu), vt.String(), kt.String()))
@@ -475,6 +491,9 @@ func checkC04(w *World, r *Report) {
 				if !(isField(k, "Bidder") && k.Args[0].Op == "elem" && fromColl(k.Args[0], "Bid") && !k.Args[0].Any(func(t *Term) bool { return isField(t, "MatchedBids") })) {
 					ok, why = false, "the reservation is keyed by "+k.String()+", not by the bidder of each bid of the auction's complete bid list"
 					continue
+				}
+				if v.Op == "call" && strings.HasSuffix(v.Name, ".ZeroInt") {
+					continue // the entry's initial value
 				}
 				if !(v.Op == "call" && mathName(v) == "Int.Add" && len(v.Args) == 2) {
 					ok, why = false, "the reservation is not accumulated: "+v.String()
